@@ -5,6 +5,9 @@ import (
 )
 
 func (p *Pool) Stop() {
+	p.lifeM.Lock()
+	defer p.lifeM.Unlock()
+
 	defer p.runM.Unlock()
 	if p.runM.TryLock() {
 		slog.Warn("worker pool already stopped")
